@@ -114,12 +114,13 @@ CHECKS = {
     },
     "C12": {
         "engine": "tlc-replay", "design_ref": "DESIGN.md 3.7, 4.2, 7 C12",
-        "technique": "Cache.tla machine model-checked exhaustively (design invariants + reference Transparent), its labelled state graph replayed transition by transition on a real grammar directory, real traces validated against the machine and judged by CacheTrace.tla; Persist.tla for the save/load round trip, TLC",
+        "technique": "Cache.tla machine model-checked exhaustively (design invariants + reference Transparent), its labelled state graph replayed transition by transition on a real grammar directory, real traces validated against the machine and judged by CacheTrace.tla; the same for the compiled error hints (.pgec): HintCache.tla / HintCacheTrace.tla with two negative-control configurations; Persist.tla for the save/load round trip, TLC",
         "level": "Every transition of the cache protocol machine (construct under three option sets, crash while saving, pglr compile, edits and touches of root and imported grammar) is "
-                 "executed on the real code and the projected directory state and reply compared after every step; every completed construction is judged against the no-cache table; "
+                 "executed on the real code and the projected directory state and reply compared after every step; every completed construction is judged against the no-cache table "
+                 "(and, in the hint-cache machine, against the hints compiled with no cache); "
                  "round trip: actions, gotos, finish flags, conflicts, dynamic marks equal after load and the second save byte-identical.",
         "note": "Trusted: TLC, the directory projection (harness/stage_cache.replay). Bounded: one replay grammar with one imported file, histories up to depth 3 (thorough 4). "
-                "Known finding D8: the options a table was written under are not part of the cache decision.",
+                "Known findings D8 / D41: the options a table was written under (the kind of parser that compiled the hints) are not part of the cache decision.",
     },
     "C13": {
         "engine": "tlc-trace", "design_ref": "DESIGN.md 3.9 Desugar, 7 C13",
